@@ -267,9 +267,23 @@ func genCall(r *rand.Rand) c19Call {
 	case 11, 12:
 		ct := pick(r, []string{"text/event-stream", "application/octet-stream"})
 		s := pick(r, textPool)
-		kind := pick(r, []string{"strings.Reader", "LimitReader", "oneByteReader", "bytes.Buffer", "failing", "data+EOF", "data+error"})
+		kind := pick(r, []string{"strings.Reader", "LimitReader", "oneByteReader", "bytes.Buffer", "failing", "data+EOF", "data+error", "partly-read strings.Reader", "partly-read bytes.Reader", "SectionReader"})
+		skip := 0
+		if strings.HasPrefix(kind, "partly-read") && len(s) > 0 {
+			skip = 1 + r.IntN(len(s)) // the caller has consumed a header of the source already
+		}
 		mk := func() io.Reader {
 			switch kind {
+			case "partly-read strings.Reader":
+				rd := strings.NewReader(s)
+				_, _ = io.CopyN(io.Discard, rd, int64(skip))
+				return rd
+			case "partly-read bytes.Reader":
+				rd := bytes.NewReader([]byte(s))
+				_, _ = io.CopyN(io.Discard, rd, int64(skip))
+				return rd
+			case "SectionReader":
+				return io.NewSectionReader(strings.NewReader("xx"+s+"yy"), 2, int64(len(s)))
 			case "strings.Reader":
 				return strings.NewReader(s)
 			case "LimitReader":
@@ -285,7 +299,7 @@ func genCall(r *rand.Rand) c19Call {
 			}
 			return &failingReader{data: s}
 		}
-		call := c19Call{Desc: fmt.Sprintf("Stream(%d, %q, %s of %q)", status, ct, kind, s), Do: func(c *rux.Context) error { c.Stream(status, ct, mk()); return nil }, Status: want, CT: ct, Check: bodyIs(s)}
+		call := c19Call{Desc: fmt.Sprintf("Stream(%d, %q, %s of %q, %d bytes already consumed)", status, ct, kind, s, skip), Do: func(c *rux.Context) error { c.Stream(status, ct, mk()); return nil }, Status: want, CT: ct, Check: bodyIs(s[skip:])}
 		if kind == "failing" || (kind == "data+error" && s != "") {
 			call.MustFail = true
 			call.Check = bodyIs(s) // what was read before the failure is still delivered
@@ -566,6 +580,16 @@ func runC19(e *Env) {
 				if ok, why := call.Check(rec); !ok {
 					t.Fail("body-does-not-decode-to-value", "%s: %s", call.Desc, why)
 					return
+				}
+			}
+			// whatever length the helper announces is the length of what it delivers
+			if rec.HeaderAtCommit != nil && !call.MustFail {
+				if cl := rec.HeaderAtCommit.Get("Content-Length"); cl != "" {
+					t.Count("calls.with_content_length", 1)
+					if cl != itoa(rec.Body.Len()) {
+						t.Fail("content-length-differs-from-body", "%s: announces Content-Length %s but delivers %d body bytes (%q)", call.Desc, cl, rec.Body.Len(), truncate(rec.Body.String(), 80))
+						return
+					}
 				}
 			}
 		}
